@@ -582,6 +582,34 @@ def _case_effects(fn):
                     else not isnone
         return None
 
+    def absval(v, env):
+        """kind of a value computed from the dictionary entry:
+        'NONE' | 'ZERO' | 'NUM' | None (unknown)"""
+        if isinstance(v, ast.Constant):
+            if v.value is None:
+                return 'NONE'
+            if isinstance(v.value, (int, float)) and not isinstance(
+                    v.value, bool):
+                return 'ZERO' if v.value == 0 else 'NUM'
+            return None
+        if U(v) in ('np.nan', 'np.inf', 'numpy.nan', 'float("nan")',
+                    "float('nan')"):
+            return 'NUM'        # not None, and truthy
+        if isinstance(v, ast.Name):
+            c = env.get(v.id)
+            return c if c in ('NONE', 'ZERO', 'NUM') else None
+        if isinstance(v, ast.Call) and U(v.func) in (
+                'float', 'int', 'np.float64', 'np.asarray', 'np.array') \
+                and v.args:
+            c = absval(v.args[0], env)
+            return c if c in ('ZERO', 'NUM') else None
+        if isinstance(v, ast.IfExp):
+            t_ = truth(v.test, env)
+            if t_ is None:
+                return None
+            return absval(v.body if t_ else v.orelse, env)
+        return None
+
     def run(stmts, env, eff):
         """-> 'next' (fell through) | 'stop' (continue/break/return)"""
         for st in stmts:
@@ -647,6 +675,8 @@ def _case_effects(fn):
                             env[t.id] = env['@case']
                     elif isinstance(v, ast.Name) and v.id in env:
                         env[t.id] = env[v.id]
+                    elif absval(v, env) is not None:
+                        env[t.id] = absval(v, env)
                     elif isinstance(v, (ast.Compare, ast.UnaryOp,
                                         ast.BoolOp)) and truth(
                             v, env) is not None:
